@@ -15,7 +15,12 @@ func verifByteSum(data []byte) uint64 {
 }
 
 func Verif_C13_weight_public() {
-	r := []int{100, 150}[verifCase(2)]
+	c := verifCase(3)
+	if c == 2 {
+		verifC13BelowMinimum()
+		return
+	}
+	r := []int{100, 150}[c]
 	h := NewCustomConsistentHash(r, verifByteSum)
 	w := verifInt("weight")
 	verifAssume(w >= -3)
@@ -40,4 +45,37 @@ func Verif_C13_weight_public() {
 	h.AddWithWeight("node-a", 0)
 	verifAssert(len(h.keys) == 0, "re-adding a node with weight 0 removes all its virtual nodes")
 	verifReach("drained")
+}
+
+// case 2: a custom ring asked for FEWER than minReplicas replicas (symbolic
+// request in [-1, 99], i.e. negative, zero and every positive count below the
+// minimum).  The constructor raises the count to minReplicas, which is what
+// makes every positive weight percentage (1..100) worth at least one virtual
+// node: "lookup reports absence only when no node of positive weight is
+// present".
+func verifC13BelowMinimum() {
+	r := verifInt("replicas")
+	verifAssume(r >= -1)
+	verifAssume(r <= minReplicas-1)
+	w := verifInt("weight")
+	verifAssume(w >= 1)
+	verifAssume(w <= TopWeight)
+	h := NewCustomConsistentHash(r, verifByteSum)
+	verifAssert(h.replicas >= minReplicas, "a custom ring has at least minReplicas replicas whatever count was requested")
+	if h.replicas < minReplicas {
+		// violation recorded above; the ring loops below run h.replicas times and
+		// are only bounded when that count is concrete (it is 100 on a correct tree)
+		return
+	}
+	verifReach("below-minimum-raised")
+	h.AddWithWeight("node-a", w)
+	own := len(h.keys)
+	verifAssert(own >= 1, "a node of positive weight owns at least one ring position")
+	verifAssert(own <= h.replicas, "never more virtual nodes than replicas")
+	n, ok := h.Get("some-key")
+	verifAssert(ok, "a ring holding a node of positive weight never reports absence")
+	verifAssert(ok && n == any("node-a"), "the only node gets every key")
+	if w == 1 {
+		verifReach("weight-1-present")
+	}
 }
